@@ -64,6 +64,10 @@ fn fresh_aggregates<A: Aggregate + serde::Serialize>(
     Ok(res)
 }
 
+pub fn diff_path_pub(a: &Value, b: &Value, path: &str, out: &mut Vec<String>) {
+    diff_path(a, b, path, out)
+}
+
 fn diff_path(a: &Value, b: &Value, path: &str, out: &mut Vec<String>) {
     if out.len() > 3 {
         return;
